@@ -4,7 +4,11 @@ Theorems: Properties_C12.v (every simple graph with positive integer weights, ev
 predecessor edge, parent, first label per vertex).  Independently of the model every implementation answer is judged against the property text
 (own Dijkstra, tree shape, first labels, reversal symmetry and sub-path closure across all sources).
 Weight types: double, int and long long (64-bit integer weights above 2^53: sums that are not doubles, distinct weights that collide as doubles; the
-extracted model works over Z, the kinds L / ALLL are given to it as I / ALLI).  A few graphs with more than 2^16 vertices (wheels whose hub has rim
+extracted model works over Z, the kinds L / ALLL are given to it as I / ALLI), unsigned long (U / ALLU: an unsigned DistanceType, where differences of
+distances wrap around; model kinds I / ALLI) and doubles of extreme magnitude or full mantissa: TS / ALLS = every weight multiplied by 2^scale, scale in
+{-1000, -300, -70, -20, 40, 300, 900} (exact; the answer in the case's units must be that of T / ALL on the unscaled weights: comparisons of distances must
+not depend on their magnitude), and integer-valued doubles just below 2^53 / n (`weigh_mant`: ~50 significant bits, every path and cycle sum still exact:
+distances that differ by 1 unit in 2^50 are different).  A few graphs with more than 2^16 vertices (wheels whose hub has rim
 neighbours with indices >= 65536) are judged against the property text only (too large for the list-based extracted model)."""
 import json, heapq, os, concurrent.futures as cf
 import lib, gen
@@ -13,7 +17,10 @@ PID = "C12"
 THEOREMS = ["Properties_C12.v"]
 LIBS = ["-ltbb", "-lboost_timer"]
 GROUP = "c12"
-ONE = ("T", "TV", "I", "L")            # kinds that build one tree (T/TV double, I int, L long long); ALL / ALLI / ALLL build the trees of all sources
+ONE = ("T", "TV", "I", "L", "U", "TS")  # kinds that build one tree (T/TV/TS double, I int, L long long, U unsigned long); ALL / ALLI / ALLL / ALLU / ALLS build the trees of all sources
+SCALED = ("TS", "ALLS")                # kind scale ...: double weights w * 2^scale
+SCALES = (-1000, -300, -70, -20, 40, 300, 900)
+EXACT_MAX = 9 * 10 ** 15               # harness/graph.hpp prints integer-valued doubles below 9e15 (< 2^53) as integers
 LLONG_MAX = 2 ** 63 - 1
 BIG_N = 2000                           # above this many vertices a case is judged against the property text only (no model run)
 
@@ -21,7 +28,8 @@ BIG_N = 2000                           # above this many vertices a case is judg
 def model_line(case):
     """the extracted model computes over Z: the 64-bit kinds are given to it as the int kinds"""
     k, _, rest = case.partition(" ")
-    return {"L": "I", "ALLL": "ALLI"}.get(k, k) + " " + rest
+    if k in SCALED: rest = rest.partition(" ")[2]      # drop the scale: the model computes in the case's units
+    return {"L": "I", "ALLL": "ALLI", "U": "I", "ALLU": "ALLI", "TS": "T", "ALLS": "ALL"}.get(k, k) + " " + rest
 
 
 # ---------------------------------------------------------------------------------------------------------
@@ -42,10 +50,11 @@ def parse_tree(txt):
 def parse_case(case):
     t = case.split()
     kind = t[0]
+    p = 2 if kind in SCALED else 1
     if kind in ONE:
-        s = int(t[1]); n, es, _ = lib.parse_graph_tokens(t, 2)
+        s = int(t[p]); n, es, _ = lib.parse_graph_tokens(t, p + 1)
         return kind, s, n, es
-    n, es, _ = lib.parse_graph_tokens(t, 1)
+    n, es, _ = lib.parse_graph_tokens(t, p)
     return kind, None, n, es
 
 
@@ -226,6 +235,58 @@ def weigh64(rng, g, style=None):
     return g2, style
 
 
+def weigh_mant(rng, g, style=None):
+    """integer-valued DOUBLE weights with ~50 significant bits: W - r with W just below 9e15 / (n + 1) (so that every sum of at most n + 1 weights - every
+    tentative distance, every path and every simple cycle - is an integer below 2^53, hence exact) and r in 0..3 (mostly 0: many ties, and path lengths
+    that differ by 1..3 units in ~2^50, i.e. by less than 4 ulp relative).  Styles: near = all edges W - r; half = some edges ~W/2 - r, the others W - r
+    (two light edges against one heavy one: near-equal lengths with different edge counts); p49 = 2^49 + {0..3} (n <= 7 only)."""
+    n, es = g
+    W = (EXACT_MAX - 1) // (max(n, 2) + 1)
+    style = style or rng.choice(["near", "near", "half", "p49"])
+    if style == "p49" and ((1 << 49) + 3) * (n + 1) >= EXACT_MAX: style = "near"
+    def r(): return rng.choice([0, 0, 0, 1, 1, 2, 3])
+    if style == "near": ws = [W - r() for _ in es]
+    elif style == "half": ws = [(W // 2 - r()) if rng.random() < 0.6 else W - r() for _ in es]
+    else: ws = [(1 << 49) + r() for _ in es]
+    g2 = (n, [(u, v, w) for (u, v, _), w in zip(es, ws)])
+    assert (n + 1) * max([1] + ws) < EXACT_MAX
+    return g2, style
+
+
+def small_tie_graph(rng, maxn=9):
+    """small tie-heavy shapes (grid 3x3 / 2xk, C4..C8, theta, K4, K5, wheels, K_{2,3}, K_{3,3}, cube), relabelled"""
+    r = rng.randrange(9)
+    if r == 0: g = gen.grid(3, 3)
+    elif r == 1: g = gen.grid(2, rng.randint(2, 4))
+    elif r == 2: g = gen.cycle(rng.randint(4, 8))
+    elif r == 3: g = gen.theta(rng.randint(0, 2), rng.randint(1, 3), rng.randint(1, 3))
+    elif r == 4: g = gen.complete(rng.randint(3, 5))
+    elif r == 5: g = gen.wheel(rng.randint(4, 8))
+    elif r == 6: g = gen.bipartite(rng.randint(2, 3), 3)
+    elif r == 7: g = gen.hypercube(3)
+    else: g = gen.structural(rng, 7)
+    if g[0] > maxn or g[0] == 0: g = gen.cycle(6)
+    if rng.random() < 0.7: g = gen.relabel(rng, g[0], g[1])
+    return g
+
+
+def extreme_double_graphs(rng, nscaled, nmant):
+    """[(scale | None, graph)]: nscaled graphs with small integer weights to be multiplied by 2^scale (every scale of SCALES in turn; weights <= 1000, so
+    w * 2^scale is finite and normal), then nmant graphs with mantissa-heavy weights (weigh_mant; scale None).  Small tie-heavy shapes, always with a cycle."""
+    out = []
+    while len(out) < nscaled + nmant:
+        g = small_tie_graph(rng) if rng.random() < 0.7 else tie_family(rng, 12)
+        if g[0] > 12 or len(g[1]) - g[0] + gen.components(g[0], g[1]) < 1: continue
+        if len(out) < nscaled:
+            g, _ = gen.weigh(rng, g, rng.choice(["ties", "ties", "wide", "wide", "unit"]))
+            out.append((SCALES[len(out) % len(SCALES)], g))
+        else:
+            if g[0] > 9: continue
+            g, _ = weigh_mant(rng, g)
+            out.append((None, g))
+    return out
+
+
 def big_wheels(rng):
     """`T s graph` cases on graphs with more than 2^16 vertices, judged against the property text only: a wheel with 65600 vertices (hub + rim, unit
     weights) plus a triangle, a path of three, a K2 and an isolated vertex.  (a) hub = vertex 0: the root's children / the rim neighbours of a high rim
@@ -270,6 +331,23 @@ def gen_cases(rng, tier):
         cases.append("ALLL " + gen.graph_tokens(g))
         if g[0] > 0 and rng.random() < 0.3:
             cases.append("L %d %s" % (rng.randrange(g[0]), gen.graph_tokens(g)))
+    # doubles of extreme magnitude (TS / ALLS: weights times 2^scale) and with ~50 significant bits (plain T / ALL); generated after everything above
+    q = tier == "quick"
+    for scale, g in extreme_double_graphs(rng, 70 if q else 700, 70 if q else 700):
+        gt = gen.graph_tokens(g)
+        cases.append(("ALLS %d %s" % (scale, gt)) if scale is not None else "ALL " + gt)
+        if rng.random() < 0.3:
+            s = rng.randrange(g[0])
+            cases.append(("TS %d %d %s" % (scale, s, gt)) if scale is not None else "%s %d %s" % (rng.choice(["T", "TV"]), s, gt))
+    # unsigned long weights (U / ALLU): small weights (routes that are first found long and later improved) and 64-bit weights above 2^53
+    for i in range(70 if q else 700):
+        g = tie_family(rng, maxn) if rng.random() < 0.5 else gen.structural(rng, maxn)
+        while g[0] > maxn: g = gen.structural(rng, maxn)
+        if rng.random() < 0.25: g, style = weigh64(rng, g)
+        else: g, style = gen.weigh(rng, g, rng.choice(["ties", "ties", "wide", "wide", "unit", "f32tie"]))
+        cases.append("ALLU " + gen.graph_tokens(g))
+        if g[0] > 0 and rng.random() < 0.3:
+            cases.append("U %d %s" % (rng.randrange(g[0]), gen.graph_tokens(g)))
     return cases
 
 
@@ -298,7 +376,9 @@ def check(tier, seed):
     maxn = 14 if tier == "quick" else 40
     c.rule = ("graphs n <= %d from tie-heavy families (unit/small-weight grids, hypercubes, K_ab, wheels, K_n, Petersen, cycles, theta) and the structured + random "
               "families of gen.structural (forests, disconnected, isolated vertices), weights unit/ties/wide/pow2 (double), unit/ties/wide (int) and 64-bit weights above 2^53 "
-              "(long long: 2^53+r, 2^54+{0..3}, 2^54+permutation, 2^b+r up to b = 60, heavy/light mixes; (m+4)*sum(w) < 2^63); for every graph "
+              "(long long: 2^53+r, 2^54+{0..3}, 2^54+permutation, 2^b+r up to b = 60, heavy/light mixes; (m+4)*sum(w) < 2^63), the same as unsigned long, "
+              "small tie-heavy graphs with double weights times 2^scale (scale in -1000,-300,-70,-20,40,300,900) and with ~50-bit integer-valued doubles "
+              "W-r, W ~ 9e15/(n+1), r in 0..3 (all path and cycle sums exact); for every graph "
               "the trees of ALL sources (built in a std::vector as the algorithms do), plus single trees; exact comparison with the model and an independent judge "
               "(distances, tree shape, first labels, reversal symmetry, sub-path closure); plus four single trees on wheels with 65609 vertices (judge only); "
               "distinct by md5; non-trivial = the graph has a cycle") % maxn
@@ -382,7 +462,7 @@ def replay(path):
         i = lib.run_lines([exe], hist, par=1)[-1]
     else:
         i = lib.run_lines([exe], [line], par=1)[0]
-    big = r.get("judge_only") or int(line.split()[2 if line.split()[0] in ONE else 1]) > BIG_N      # too large for the list-based model: property text only
+    big = r.get("judge_only") or parse_case(line)[2] > BIG_N      # too large for the list-based model: property text only
     m = i if big else lib.run_model("c12", [model_line(line)], par=1, group=GROUP)[0]
     why = judge(line, i)
     print("case :", line[:2000]); print("impl :", i[:2000]); print("model:", "(not run: judged against the property text only)" if big else m[:2000]); print("judge:", why)
